@@ -35,6 +35,10 @@ CHECKS = {
          "Seeded search over bus histories and timings: up to 8 transactions of other masters (plain, query with answer / silence / explicit no-frame / framing error, config sent twice / once / interrupted, EnableDeviceType + extended command, 24-bit commands, events with and without instance map, unknown frames, bursts) interleaved with the driver's own sends, every gap clearly shorter or longer than the 200 ms watcher timer, 0-3 subscribers joining and leaving between reports; the Tridonic bus watcher's callbacks are compared, per subscriber, with a sequential reference watcher fed with the very reports the gateway model delivered (virtual arrival times); LUBA/SCI distribution queues and hasseb own-traffic reports likewise. Runs with a realised gap inside 150-250 ms while a command is pending are set aside.",
          "Trusted base: reference watcher (sim/refs/buswatch.py, DESIGN.md appendix B), gateway report formats, the library's own frame decoder for interpretation.",
          "deterministic simulation (virtual clock around a 200 ms timer, seeded histories, reference watcher oracle)", "4"),
+ "C18": ("drvsim+syncsim", "exploration",
+         "Seeded search over command sequences: every packet the nine drivers write is parsed by an independent table-driven referee of that gateway's wire format and compared with the command's frame and flags (field alignment, length/mode code, send-twice flag or double write, LUBA priority, padding, checksums, sequence numbers in range without immediate repetition over > 600 consecutive sends), frames of unsupported length must be refused before any byte is written, and every status/type code is fed to the blocking drivers' receive functions. The asyncio drivers run on the virtual loop, partly with two concurrent callers.",
+         "Trusted base: the referees' transcription of the protocol notes quoted in the drivers (DESIGN.md 2.5 / C18); SCI transmit layout of the pinned tree assumed correct; vendor documents not available offline.",
+         "deterministic simulation (wire referees in the gateway models; seeded command histories incl. sequence-number wrap)", "4"),
 }
 
 PLANNED = {}
